@@ -79,7 +79,7 @@ def solve(args):
     text, nparts, timeout, expect_sat, both, rtext = args
     try:
         r = solve_text(text, nparts, timeout, expect_sat=expect_sat, both=both, reduced_text=rtext)
-        if r["status"] == "unknown" and not expect_sat and timeout <= 20:
+        if r["status"] == "unknown" and not expect_sat and timeout <= 20 and not os.environ.get("PYVC_NO_RETRY"):
             # undecided within the budget: one retry with three times the budget, so that a verdict does not flip to
             # "undecided" just because every core is busy (an obligation that is really unprovable pays this once)
             r2 = solve_text(text, nparts, timeout * 3, expect_sat=expect_sat, both=both, reduced_text=rtext)
